@@ -578,17 +578,41 @@ func runReconfig(c *vh.Ctx, encs []enc) {
 		how   string
 	}
 	var setups []setup
-	for i := 0; i < 8; i++ {
-		st := setup{id: tls.HelloCustom, how: []string{"edit-extension", "new-spec"}[i%2]}
-		for k, n := 0, 2+r.Intn(2); k < n; k++ {
-			st.steps = append(st.steps, lists[r.Intn(len(lists))])
+	name := func(steps [][]uint16) string {
+		s := ""
+		for i, l := range steps {
+			if i > 0 {
+				s += ">"
+			}
+			if l == nil {
+				s += "own"
+			}
+			for _, a := range l {
+				s += fmt.Sprint(a)
+			}
+			if l != nil && len(l) == 0 {
+				s += "none"
+			}
 		}
-		st.name = fmt.Sprintf("custom/%s/%v", st.how, st.steps)
-		setups = append(setups, st)
+		return s
 	}
-	for _, id := range []tls.ClientHelloID{tls.HelloChrome_Auto, tls.HelloChrome_120, tls.HelloSafari_Auto} {
-		st := setup{id: id, how: "edit-extension", steps: [][]uint16{nil, lists[1+r.Intn(2)]}} // nil = the parrot's own list
-		st.name = fmt.Sprintf("%s/edit-extension/%v", id.Client+id.Version, st.steps[1])
+	fixed := [][][]uint16{{{2}, {1}}, {{1}, {3}}, {{3}, {1}, {2}}, {{3, 2, 1}, {1}}, {{2, 1}, {1, 3}}, {{2}, {}}, {{1, 3}, {2}, {3}}, {{}, {2}}}
+	extra := [][]uint16{lists[r.Intn(len(lists))], lists[r.Intn(len(lists))]} // one generated sequence per run
+	for i, steps := range append(fixed, extra) {
+		for _, how := range []string{"edit-extension", "new-spec"} {
+			if how == "new-spec" && i%3 != 0 {
+				continue
+			}
+			key := name(steps)
+			if i == len(fixed) {
+				key = "generated"
+			}
+			setups = append(setups, setup{name: "custom/" + how + "/" + key, id: tls.HelloCustom, steps: steps, how: how})
+		}
+	}
+	for i, id := range []tls.ClientHelloID{tls.HelloChrome_Auto, tls.HelloChrome_120, tls.HelloSafari_Auto} {
+		st := setup{id: id, how: "edit-extension", steps: [][]uint16{nil, lists[1+i%2]}} // nil = the parrot's own list
+		st.name = fmt.Sprintf("%s/edit-extension/%s", id.Client+id.Version, name(st.steps))
 		setups = append(setups, st)
 	}
 	for _, st := range setups {
